@@ -303,10 +303,12 @@ impl Visitor<Diagnostic> for RuleGraphReferenceableElements {
     ) -> Result<Self::Value, Diagnostic> {
         let this = self.declarations.add_node(&node.type_name.name);
 
-        if let ArraySpecificationKind::Type(parent) = &node.spec {
-            let depends_on = self.declarations.add_node(&parent.name);
-            self.declarations.graph.add_edge(depends_on, this, ());
+        let parent = match &node.spec {
+            ArraySpecificationKind::Type(parent) => parent,
+            ArraySpecificationKind::Subranges(subranges) => &subranges.type_name,
         };
+        let depends_on = self.declarations.add_node(&parent.name);
+        self.declarations.graph.add_edge(depends_on, this, ());
 
         node.recurse_visit(self)
     }
@@ -408,8 +410,23 @@ impl Visitor<Diagnostic> for RuleGraphReferenceableElements {
                         self.declarations.graph.add_edge(to, from, ());
                     }
                     InitialValueAssignmentKind::Subrange(_) => {}
-                    InitialValueAssignmentKind::Structure(_) => {}
-                    InitialValueAssignmentKind::Array(_) => {}
+                    InitialValueAssignmentKind::Structure(si) => {
+                        // A variable or element with a structure initializer refers to its type
+                        // (a structure or a function block) just like one without an initializer
+                        let from = self.declarations.add_node(from);
+                        let to = self.declarations.add_node(&si.type_name.name);
+                        self.declarations.graph.add_edge(to, from, ());
+                    }
+                    InitialValueAssignmentKind::Array(array) => {
+                        // An array refers to the type of its elements
+                        let element_type = match &array.spec {
+                            ArraySpecificationKind::Type(name) => name,
+                            ArraySpecificationKind::Subranges(subranges) => &subranges.type_name,
+                        };
+                        let from = self.declarations.add_node(from);
+                        let to = self.declarations.add_node(&element_type.name);
+                        self.declarations.graph.add_edge(to, from, ());
+                    }
                     InitialValueAssignmentKind::LateResolvedType(lrt) => {
                         // We nly care about these because these may be references to a function block
                         let from = self.declarations.add_node(from);
